@@ -14,3 +14,20 @@ Proof. exact dfa_match_verdict_independent. Qed.
 
 Print Assumptions C04_validated.
 Print Assumptions C04_verdict_independent.
+
+(* THE BUILDER ITSELF, for the term sets that contain only character terms and string terms (keywords, punctuation; duplicates,
+   empty strings and more than four equal terms allowed): create_lexer always succeeds and the automaton it builds - a trie, one path
+   per state - satisfies the conclusion of C04_validated for every input, with no per-instance check. (With regex terms the builder is
+   wrong on some patterns: known finding D4; those term sets are covered by the per-instance obligation lexer_ok.) *)
+Require Import Ctpg.Proofs.TrieLexerChain Ctpg.Proofs.TrieLexer.
+Theorem C04_keyword_and_punctuation_lexers_are_correct : forall ts,
+  Forall is_plain ts ->
+  exists sm, create_lexer ts = Some sm /\
+             forall s, bytes_ok s -> is_longest_match ts s (snd (dfa_match sm false sp0 s)).
+Proof. exact plain_lexer_correct. Qed.
+Print Assumptions C04_keyword_and_punctuation_lexers_are_correct.
+
+Theorem C04_plain_lexer_never_out_of_range : forall ts sm s,
+  Forall is_plain ts -> ts <> [] -> create_lexer ts = Some sm -> dfa_match_oob sm s = false.
+Proof. exact plain_lexer_no_oob. Qed.
+Print Assumptions C04_plain_lexer_never_out_of_range.
